@@ -40,6 +40,10 @@ impl OutputFormat for Bin {
         result.is_terminal_buffer = false;
         result.file_name = Some(file_name.into());
         result.set_sauce(sauce_opt, true);
+        if !matches!(result.ice_mode, crate::IceMode::Ice) {
+            // attribute bit 7 means blink unless the SAUCE record asks for iCE colours
+            result.ice_mode = crate::IceMode::Blink;
+        }
         let mut o = 0;
         let mut pos = Position::default();
         loop {
